@@ -14,11 +14,20 @@ def escape_quotes_and_backslashes(s):
     return s.replace(u'\\', u'\\\\').replace(u"'", u"\\'")
 
 
+# Words the pattern lexer reads as keywords, not as identifiers.
+_RESERVED_WORDS = frozenset((
+    "AND", "OR", "NOT", "FOLLOWEDBY", "LIKE", "MATCHES", "ISSUPERSET",
+    "ISSUBSET", "EXISTS", "LAST", "IN", "START", "STOP", "SECONDS", "true",
+    "false", "WITHIN", "REPEATS", "TIMES",
+))
+
+
 def quote_if_needed(x):
     if isinstance(x, str):
         # Anything but a plain identifier (hyphens, spaces, dots, quotes, ...)
-        # can only be written as a quoted path step.
-        if not re.fullmatch(r"[a-zA-Z_][a-zA-Z0-9_]*", x):
+        # can only be written as a quoted path step.  The same goes for an
+        # identifier that is spelled like a keyword.
+        if not re.fullmatch(r"[a-zA-Z_][a-zA-Z0-9_]*", x) or x in _RESERVED_WORDS:
             if not x.startswith("'"):
                 return "'" + escape_quotes_and_backslashes(x) + "'"
     return x
